@@ -21,12 +21,12 @@ RULE = (
     "the random validator runs) x 1 reference + 3..5 variant executions, each in a fresh interpreter: PYTHONHASHSEED, threads 1..16, "
     "chunk size, affinity mask, cwd/output location (absolute, relative, none), wall clock script, validator RNG seed, pre-work in the "
     "process (about 20% of the groups); the other groups run their members inside one worker process (threads, chunk size, clock, RNG "
-    "seed, output location, earlier work vary) so the parallel kernel is sampled far more often; non-trivial = at least 3 updates in every member and all members ran; distinct = distinct group digests"
+    "seed, output location, earlier work vary) so the parallel kernel is sampled far more often; in about 30% of the members another simulation on the same Device object (same drive objects, another field, other terminal handling, screening toggled) is scheduled at a seam of the run - between two steps, inside a step before the psi update / a screening iteration / an operator refresh, around a frame write; non-trivial = at least 3 updates in every member and all members ran; distinct = distinct group digests"
 )
 LIFECYCLES = {}  # shared object life cycles (scen.add_lifecycles) with their default rates
 BUDGET = {"quick": {"runs": 120, "chunk": 2, "selftest": 2, "max_wall": 800}, "thorough": {"runs": 2500, "chunk": 4, "selftest": 2}}
 COMPONENTS = {"real": ["meshing (Triangle)", "TDGLSolver incl. numba parallel screening kernel", "validator RNG path", "Runner/DataHandler/Solution", "fresh CPython interpreters"], "stub": ["wall clock (scripted, differs per member)", "validator RNG seed (differs per member)"]}
-ASSUMPTIONS = ["The interleaving of threads inside a numba/OpenMP kernel is sampled (thread count, chunk size, affinity incl. 16 threads on 1 core), not controlled."]
+ASSUMPTIONS = ["Interleaving with another simulation in the same process is decided by the simulator at the seams of the run (between steps, before a psi update / screening iteration / operator refresh, around a frame write): the other simulation runs to completion there, which is what a second caller thread yields at the granularity of those seams.", "The interleaving of threads inside a numba/OpenMP kernel is sampled (thread count, chunk size, affinity incl. 16 threads on 1 core), not controlled."]
 VERIF = os.path.dirname(os.path.dirname(os.path.dirname(os.path.abspath(__file__))))
 
 
@@ -110,6 +110,14 @@ def gen(seed, idx, tier):
         for v in variants:
             v["threads"] = min(v["threads"], rnd.choice([2, 3, 4]))
             v["affinity"] = None
+    # schedule decisions: in some members another simulation runs on the same Device object at a seam of the
+    # run (between steps, inside a step, around a frame write); drawn from a stream of their own
+    import random as _random
+
+    g = _random.Random(rnd.getrandbits(64))
+    for v in variants[1:]:
+        v["guests"] = scen.gen_guests(g, scn) if (g.random() < 0.3 and not reuse) else []
+    variants[0]["guests"] = []
     return {"mode": mode, "reuse_seed": reuse, "base": scn, "variants": variants, "options": scn["options"], "device": scn["device"], "drive": scn["drive"], "faults": []}
 
 
@@ -142,6 +150,7 @@ def execute_inproc(scn, var, seed_solution=None):
     s = copy.deepcopy(scn)
     s["env"] = {"threads": var.get("threads", 1), "clock": var.get("clock"), "rng_seed": var.get("rng_seed", 1), "cwd": var.get("cwd", "work"), "device_used_before": var.get("device_used_before")}
     s["observer"] = {"output": var.get("output")}
+    s["guests"] = copy.deepcopy(var.get("guests", []))
     old_chunk = numba.get_parallel_chunksize()
     if var.get("chunk"):
         numba.set_parallel_chunksize(var["chunk"])
@@ -160,6 +169,7 @@ def execute_inproc(scn, var, seed_solution=None):
             "fixed": None if h.fixed is None else digest_arrays(*[h.fixed[k] for k in sorted(h.fixed)]),
             "outcome": h.outcome if not h.outcome.startswith("raised") else h.outcome + ":" + h.exc[1][:60],
             "n_updates": len(ups),
+            "guests_fired": len(h.guests_fired),
             "threading_layer": None,
         }
     finally:
@@ -201,7 +211,7 @@ def run(scn):
                 Violation(
                     "not-reproducible",
                     f"execution {j} differs from the reference execution in {diff}; environment difference: "
-                    + ", ".join(f"{k}: {va[k]} -> {vb[k]}" for k in ("hashseed", "threads", "chunk", "affinity", "output", "cwd", "prework", "rng_seed") if va[k] != vb[k]),
+                    + ", ".join(f"{k}: {va[k]} -> {vb[k]}" for k in ("hashseed", "threads", "chunk", "affinity", "output", "cwd", "prework", "rng_seed", "guests") if va.get(k) != vb.get(k)),
                     parts=diff,
                     screening=bool(base_scn["options"]["include_screening"]),
                 )
@@ -223,7 +233,7 @@ def run(scn):
         "nontrivial": nup >= 3,
         "sig": (scn.get("mode"), bool(scn.get("reuse_seed")), ref["outcome"].split(":")[0], bool(base_scn["options"]["include_screening"]), bool(base_scn["options"]["adaptive"]), base_scn["drive"]["field"]["kind"], (base_scn["drive"]["currents"] or {}).get("kind"), tuple(sorted({v["threads"] for v in scn["variants"]})), ref.get("threading_layer")),
         "fingerprint": digest_obj([{k: v for k, v in p.items()} for p in parts]),
-        "stats": {"steps": sum(p["n_updates"] for p in parts), "sim_time": 0.0, "probes": {("fresh_processes" if scn.get("mode") != "inproc" else "inproc_executions"): len(parts), "threads:" + "/".join(str(v["threads"]) for v in scn["variants"]): 1}, "faults": [], "attempts": 0, "screen_iters": 0, "sites": 0, "members": len(parts) if scn.get("mode") != "inproc" else 0, "inproc_members": len(parts) if scn.get("mode") == "inproc" else 0},
+        "stats": {"steps": sum(p["n_updates"] for p in parts), "sim_time": 0.0, "probes": {("fresh_processes" if scn.get("mode") != "inproc" else "inproc_executions"): len(parts), "threads:" + "/".join(str(v["threads"]) for v in scn["variants"]): 1}, "faults": ["guest-simulation"] * sum(p.get("guests_fired", 0) for p in parts), "attempts": 0, "screen_iters": 0, "sites": 0, "members": len(parts) if scn.get("mode") != "inproc" else 0, "inproc_members": len(parts) if scn.get("mode") == "inproc" else 0},
         "discard": None,
     }
 
@@ -234,8 +244,8 @@ def shrink(scn):
         for i in range(1, len(vs)):
             yield dict(scn, variants=[vs[0], vs[i]])
     if len(vs) == 2:
-        for key in ("threads", "chunk", "affinity", "output", "cwd", "prework", "rng_seed", "clock"):
-            if vs[1][key] != vs[0][key]:
+        for key in ("threads", "chunk", "affinity", "output", "cwd", "prework", "rng_seed", "clock", "guests"):
+            if vs[1].get(key) != vs[0].get(key):
                 v1 = dict(vs[1])
                 v1[key] = copy.deepcopy(vs[0][key])
                 yield dict(scn, variants=[vs[0], v1])
